@@ -190,7 +190,10 @@ def parse_trace(script_path, impl_path):
                 rec["recheck"] = recheck
                 pending_checks.append(rec)
         elif t[0] == "GOVEXEC" and blk is not None:
-            blk["govs"].append({"n": t[1], "body": t[2:], "result": govs.get(t[1], "?")})
+            body, vote = t[2:], "yes"
+            if body and body[0].startswith("vote="):   # how the validator votes; anything but yes: the proposal must not pass
+                vote, body = body[0][5:], body[1:]
+            blk["govs"].append({"n": t[1], "body": body, "vote": vote, "result": govs.get(t[1], "?")})
         elif t[0] == "COMMIT" and blk is not None:
             if di < len(digests):
                 blk["digest"] = parse_digest(digests[di]); di += 1
@@ -707,7 +710,10 @@ def o_c16(tr):
         if not (0 <= d.str_fee <= 10**18):
             yield {"oracle": "str-params-valid", "signature": "invalid", "detail": str(d.str_fee)}
         # a proposal is all or nothing: when every proposal of the block failed, no parameter may differ from the block before
-        if prev is not None and b["govs"] and all(g["result"] == "err" for g in b["govs"]):
+        for g in b["govs"]:
+            if g.get("vote", "yes") != "yes" and g["result"] == "ok":
+                yield {"oracle": "rejected-proposal-not-executed", "signature": g["vote"], "detail": "proposal %s was voted %s and passed: %s" % (g["n"], g["vote"], " ".join(g["body"])[:120])}
+        if prev is not None and b["govs"] and all(g["result"] in ("err", "rejected") for g in b["govs"]):
             if (prev.ent_params, prev.regparams, prev.str_fee) != (d.ent_params, d.regparams, d.str_fee):
                 yield {"oracle": "failed-proposal-changes-nothing", "signature": "params-changed", "detail": "block at %s: %s" % (b["time"], [" ".join(g["body"])[:120] for g in b["govs"]])}
 
@@ -790,6 +796,20 @@ def o_c06(tr):
                     sig = "nested" if any(o[3] for o in ops) else ("mixed" if len(set(o[0] for o in ops)) > 1 else "amount")
                     yield {"oracle": "fee-exact", "signature": sig,
                            "detail": "CHECK %s admitted offering %d%s, operations cost %d: %s" % (c["n"], fee.get(dn, 0), dn, w, " ".join(c["body"])[:160])}
+            # ... and the fee payer (the account named as such, also when a fee granter pays in the end) can cover it from
+            # spendable plus locked funds. Judged on the committed state: within a block gap CheckTx only ever takes from a payer
+            # (fees; an unlock moves locked eFUND into the balance, the sum stays), so a payer who cannot cover there cannot later.
+            if any(not o[3] for o in ops):
+                p = addr_id(fee_payer(c))
+                for (m, op, n, nested) in ops:
+                    if nested:
+                        continue
+                    dn = d.regparams[m]["denom"]
+                    have = d.spendable.get(p, {}).get(dn, 0) + (d.locked[p][0] if p in d.locked and d.locked[p][1] == dn else 0)
+                    if fee.get(dn, 0) > have:
+                        yield {"oracle": "payer-can-cover", "signature": "granter" if c["hdr"].get("granter", "-") != "-" else "plain",
+                               "detail": "CHECK %s admitted: payer %s has %d%s spendable+locked, fee %d: %s" % (c["n"], p, have, dn, fee.get(dn, 0), " ".join(c["body"])[:120])}
+                        break
 
 
 SIGNER_POS = {"ent.raise": 0, "ent.decide": 2, "ent.wl": 2, "wrk.reg": 4, "wrk.rec": 7, "wrk.buy": 2, "bcn.reg": 2, "bcn.rec": 3, "bcn.buy": 2,
@@ -1096,6 +1116,14 @@ def o_c15(tr):
         i += 1
 
 
+def o_import_same(tr):
+    """the part of the export/import oracle that concerns identifiers, owners and counters: a successful import leaves the
+    observable state (digest) as it was"""
+    for v in o_c15(tr):
+        if v["oracle"] in ("import-same-state", "re-export-identical"):
+            yield v
+
+
 def o_c18(tr):
     """a listing never aliases one entity with another: every listed order, registration and stream equals its point read
     (the harness prints a `D <module>.alias` line when the keeper's listing and the point read of the same entity differ)"""
@@ -1111,10 +1139,28 @@ def o_invariants(tr):
             yield {"oracle": "registered-invariant", "signature": l.split()[2], "detail": l}
 
 
+def o_record_query(tr):
+    """every record held in state (as the digest of the same height lists it) is what the point query returns for it, and a
+    record that is not held is not found"""
+    for q in tr.queries:
+        if q["kind"] not in ("wrk.block", "bcn.ts") or len(q["args"]) != 2 or not all(re.match(r"^\d+$", a) for a in q["args"]):
+            continue
+        d = digest_at(tr, q["gap"])
+        if d is None:
+            continue
+        m = q["kind"][:3]
+        key = (int(q["args"][0]), int(q["args"][1]))
+        held = d.recs[m].get(key)
+        if held is not None and (q["result"] != "ok" or tuple(q["toks"][2:]) != tuple(held)):
+            yield {"oracle": "record-query", "signature": m + "/held-not-returned", "detail": "QUERY %s %s %s: state holds %s, answer %s %s" % (q["n"], q["kind"], " ".join(q["args"]), list(held)[:3], q["result"], q["toks"][:5])}
+        if held is None and q["result"] == "ok":
+            yield {"oracle": "record-query", "signature": m + "/returned-not-held", "detail": "QUERY %s %s %s: answer %s, state holds no such record" % (q["n"], q["kind"], " ".join(q["args"]), q["toks"][:5])}
+
+
 ORACLES = {
-    "C02": [o_c02, o_invariants, o_c03], "C03": [o_c03], "C04": [o_c04, o_invariants], "C05": [o_c05, o_c05_granter, o_c05_amount], "C07": [o_c07, o_c08], "C08": [o_c08],
-    "C09": [o_c09, o_owner_writes], "C10": [o_c10, o_c10_fee, o_invariants], "C11": [o_c11, o_c11_zero], "C12": [o_c12, o_c12_live], "C14": [o_c14], "C16": [o_c16, o_c03, o_c06_plain, o_c08], "C18": [o_c18, o_c09, o_c15],
-    "C13": [o_c13, o_owner_writes], "C17": [o_c17, o_page_progress], "C20": [o_c20, o_page_progress], "C15": [o_c15, o_invariants], "C06": [o_c06], "C01": [],
+    "C02": [o_c02, o_invariants, o_c03], "C03": [o_c03], "C04": [o_c04, o_invariants], "C05": [o_c05, o_c05_granter, o_c05_amount], "C07": [o_c07, o_c08, o_record_query], "C08": [o_c08, o_record_query],
+    "C09": [o_c09, o_owner_writes, o_import_same], "C10": [o_c10, o_c10_fee, o_invariants], "C11": [o_c11, o_c11_zero], "C12": [o_c12, o_c12_live], "C14": [o_c14], "C16": [o_c16, o_c03, o_c06_plain, o_c08], "C18": [o_c18, o_c09, o_c15],
+    "C13": [o_c13, o_owner_writes, o_import_same], "C17": [o_c17, o_page_progress], "C20": [o_c20, o_page_progress], "C15": [o_c15, o_invariants], "C06": [o_c06], "C01": [],
 }
 
 
